@@ -244,6 +244,10 @@ static double from_bits(uint64_t b) {
   return d;
 }
 static uint64_t pick_double_bits(vf::Rng& r) {
+  if (r.below(40) == 0) {  // the two ends of the scale: zero / smallest subnormals / largest subnormal / smallest normal / largest finite
+    static const uint64_t ends[] = {0, 1, 2, 3, 0x000ffffffffffffeULL, 0x000fffffffffffffULL, 0x0010000000000000ULL, 0x0010000000000001ULL, 0x7feffffffffffffeULL, 0x7fefffffffffffffULL};
+    return ends[r.below(10)];
+  }
   switch (r.below(8)) {
     case 0: return r.below(0x0010000000000000ULL);                                    // subnormal
     case 1: return (r.range(1, 2046) << 52) | (r.coin() ? 0 : 0x000fffffffffffffULL);  // binade edges
@@ -473,6 +477,7 @@ int main(int argc, char** argv) {
                  uint64_t b = ((uint64_t)(1023 + (long)r.range(0, 100) - 30) << 52) | (r.next() & 0x000fffffffffffffULL);
                  if (r.below(3) == 0) b = ((uint64_t)r.range(0, 2045) << 52) | (r.next() & 0x000fffffffffffffULL);
                  if (r.below(4) == 0) b = 0x4340000000000000ULL + r.below(4);  // 2^53 + ...: integer ties
+                 if (r.below(40) == 0) b = r.below(4);                          // ties between 0 and the smallest subnormals
                  long double lo = from_bits(b), hi = from_bits(b + 1);
                  long double mid = lo + (hi - lo) / 2;
                  std::string dig;
